@@ -163,14 +163,64 @@ def _worker(args):
                 "viol": [], "samples": [], "hist": {}, "oracles": {}, "known": {}}
 
 
+def _timed_out(fn_mod, fn_name, budget):
+    return {"ops": 0, "corr": [{"layer": "harness", "kind": "harness-timeout", "where": f"{fn_mod}.{fn_name}",
+                                "detail": f"a batch of scenarios did not finish within {budget} s on the code under test (a call that never returns?)"}],
+            "viol": [], "samples": [], "hist": {}, "oracles": {}, "known": {}}
+
+
+def _died(fn_mod, fn_name, how):
+    return {"ops": 0, "corr": [{"layer": "harness", "kind": "harness-worker-died", "where": f"{fn_mod}.{fn_name}",
+                                "detail": f"the process running a batch of scenarios on the code under test {how}"}],
+            "viol": [], "samples": [], "hist": {}, "oracles": {}, "known": {}}
+
+
 def parallel(fn_mod, fn_name, payloads, procs=None):
+    """every batch runs in a worker process, under a wall-clock budget (VERIF_BATCH_TIMEOUT, default 900 s — a batch
+    of the quick tier takes seconds, one of the exhaustive thorough tier minutes).  A batch that does not come back
+    (the code under test loops or dead-locks) or whose process dies (a crash of the interpreter: the code under test
+    built a function object CPython cannot run) is reported as a broken correspondence; the check itself ends."""
+    import concurrent.futures as cf
+    from concurrent.futures.process import BrokenProcessPool
+
+    budget = int(os.environ.get("VERIF_BATCH_TIMEOUT", "900"))
+    if fn_mod == "check_conc":
+        budget = max(budget, 3600)
     procs = procs or min(16, max(1, len(payloads)))
-    if procs == 1 or len(payloads) == 1:
-        outs = [_worker((fn_mod, fn_name, p)) for p in payloads]
-    else:
-        ctx = mp.get_context("fork")
-        with ctx.Pool(procs) as pool:
-            outs = pool.map(_worker, [(fn_mod, fn_name, p) for p in payloads])
+    ctx = mp.get_context("fork")
+    outs = [None] * len(payloads)
+
+    def run(indices, nproc):
+        ex = cf.ProcessPoolExecutor(max_workers=nproc, mp_context=ctx)
+        broken = []
+        try:
+            futs = {i: ex.submit(_worker, (fn_mod, fn_name, payloads[i])) for i in indices}
+            t_end = time.time() + budget
+            for i, f in futs.items():
+                try:
+                    outs[i] = f.result(timeout=max(1.0, t_end - time.time()))
+                except cf.TimeoutError:
+                    outs[i] = _timed_out(fn_mod, fn_name, budget)
+                except BrokenProcessPool:
+                    broken.append(i)
+                except Exception as e:  # noqa
+                    outs[i] = _died(fn_mod, fn_name, f"failed: {type(e).__name__}: {e}"[:200])
+        finally:
+            # never wait for a process that hangs: kill what is left
+            for pr in list(getattr(ex, "_processes", {}).values()):
+                try:
+                    pr.kill()
+                except Exception:  # noqa
+                    pass
+            ex.shutdown(wait=False, cancel_futures=True)
+        return broken
+
+    broken = run(list(range(len(payloads))), procs)
+    # a dead worker takes the whole pool with it: the batches that were lost run again, one process each, so that only
+    # the batch that kills its process is reported
+    for i in broken:
+        if run([i], 1):
+            outs[i] = _died(fn_mod, fn_name, "died (killed by a signal, e.g. a segmentation fault of the interpreter)")
     return [tag_replay(o, fn_mod, fn_name, p) if isinstance(o, dict) else o for o, p in zip(outs, payloads)]
 
 
